@@ -111,4 +111,21 @@ def denote (sem : Sem St E) : List (List Rule) → St → Except E St
   | [] => .ok
   | c :: st => run sem c (denote sem st)
 
+/-! ### From the configured rules to the chain that is executed
+
+`NewSequence` parses the rule texts and `buildChain` turns them into the chain
+`Sequence.Exec` walks. What T2 reads from that code: how many nodes the loop
+over the rules appends per rule, and how many statements elsewhere in the
+package write a chain or the fields of a node after `newNode` made it. -/
+structure Build where
+  appendsPerRule : Nat
+  rewrites : Nat
+
+/-- The chain left in the `Sequence`: `appendsPerRule` nodes for every rule, in
+rule order; if any other code writes the chain or its nodes, what it does is
+unknown (`rewrite`, an arbitrary function). -/
+def Build.chain (b : Build) (rewrite : List Rule → List Rule) (rules : List Rule) : List Rule :=
+  let c := rules.flatMap (fun r => List.replicate b.appendsPerRule r)
+  if b.rewrites = 0 then c else rewrite c
+
 end Model.C06
